@@ -56,6 +56,24 @@ theorem src_CreateIndexGroup_expected : src_CreateIndexGroup = "{ data.MaxIndexG
 
 theorem src_ShardGroupByTimestamp_expected : src_ShardGroupByTimestamp = "{ for i := len(rpi.ShardGroups) - 1; i >= 0; i-- { sgi := &rpi.ShardGroups[i] if sgi.EngineType == engineType && sgi.Contains(timestamp) && !sgi.Deleted() && (!sgi.Truncated() || timestamp.Before(sgi.TruncatedAt)) { return &rpi.ShardGroups[i] } } return nil }" := by rfl
 
+/-! tier moves (`Tier.lean`) -/
+
+theorem src_FetchShardsNeedChangeStore_expected : src_FetchShardsNeedChangeStore = "{ e.mu.RLock() defer e.mu.RUnlock() var latestShardID uint64 for db := range e.DBPartitions { for pt := range e.DBPartitions[db] { e.DBPartitions[db][pt].mu.RLock() if config.GetStoreConfig().EnableWriteHistoryOrderedData { latestShardID = e.getLatestShard(e.DBPartitions[db][pt].shards) } for id, shard := range e.DBPartitions[db][pt].shards { tier := shard.GetTier() expired := shard.IsTierExpired() if !expired || tier == util.Cold || (config.GetStoreConfig().EnableWriteHistoryOrderedData && id == latestShardID) { continue } if tier == util.Hot { shardsToWarm = append(shardsToWarm, shard.GetIdent()) } else { shardsToCold = append(shardsToCold, shard.GetIdent()) } } e.DBPartitions[db][pt].mu.RUnlock() } } return shardsToWarm, shardsToCold }" := by rfl
+
+theorem src_TierDuration_expected : src_TierDuration = "{ switch tier { case util.Hot: return rpi.HotDuration case util.Warm, util.Moving: return rpi.WarmDuration } return 0 }" := by rfl
+
+theorem src_checkLeqThanDuration_expected : src_checkLeqThanDuration = "{ if rpi.Duration != 0 && rpi.HotDuration != 0 && rpi.HotDuration > rpi.Duration { return ErrIncompatibleHotDurations } if rpi.Duration != 0 && rpi.WarmDuration != 0 && rpi.WarmDuration > rpi.Duration { return ErrIncompatibleWarmDurations } return nil }" := by rfl
+
+theorem tierTierBegin_src_expected : tierTierBegin_src = "0" := by rfl
+
+theorem tierHot_src_expected : tierHot_src = "1" := by rfl
+
+theorem tierWarm_src_expected : tierWarm_src = "2" := by rfl
+
+theorem tierCold_src_expected : tierCold_src = "3" := by rfl
+
+theorem tierMoving_src_expected : tierMoving_src = "4" := by rfl
+
 /-! shared-storage retention (`Shared.lean`) -/
 
 theorem src_GetExpiredShards_expected : src_GetExpiredShards = "{ t := time.Now().UTC() markDelSgInfos := []meta2.ExpiredShardInfos{} expiredShards := []meta2.ExpiredShardInfos{} dataBases := c.Databases() for dbName, db := range dataBases { if db.Options == nil || db.MarkDeleted { continue } obsOptions := db.Options dbPtInfos, err := c.DBPtView(dbName) if err != nil { continue } for rpName, rp := range db.RetentionPolicies { if rp.MarkDeleted { continue } for i := range rp.ShardGroups { if !rp.ShardGroups[i].Deleted() { if rp.Duration != 0 && rp.ShardGroups[i].EndTime.Add(rp.Duration).Before(t) { markDelSgInfos = append(markDelSgInfos, meta2.ExpiredShardInfos{Database: dbName, Policy: rpName, ShardGroupId: rp.ShardGroups[i].ID}) } continue } if rp.ShardGroups[i].DeletedAt.Add(RetentionDelayedTime).After(t) { continue } shardPaths := []string{} shardIds := []uint64{} for j := range rp.ShardGroups[i].Shards { if rp.ShardGroups[i].Shards[j].MarkDelete { continue } ptId := rp.ShardGroups[i].Shards[j].Owners[0] if dbPtInfos[ptId].Owner.NodeID != c.nodeID && dbPtInfos[ptId].Status == meta2.Online { continue } logPath := obs.GetShardPath( rp.ShardGroups[i].Shards[j].ID, rp.ShardGroups[i].Shards[j].IndexID, rp.ShardGroups[i].Shards[j].Owners[0], rp.ShardGroups[i].StartTime, rp.ShardGroups[i].EndTime, db.Name, rp.Name) shardPaths = append(shardPaths, logPath) shardIds = append(shardIds, rp.ShardGroups[i].Shards[j].ID) } expiredShards = append(expiredShards, meta2.ExpiredShardInfos{Database: dbName, Policy: rpName, ShardGroupId: rp.ShardGroups[i].ID, ShardIds: shardIds, ShardPaths: shardPaths, ObsOpts: obsOptions}) } } } return markDelSgInfos, expiredShards }" := by rfl
